@@ -13,8 +13,8 @@ from harness.framework import Suite
 
 PID = "C20"
 TRANSLATE = True
-TRANSLATE_ALGO = ["AlgoTraverse", "AlgoTravFront", "AlgoRaster"]   # harness/algo_specs/18_raster.py: image_stack.py::_tp3f, ToImageStack._get_samplers / _get_scene (+ leave) / transform
-DRIVER_FILES = ["SwcVerif/Model/AlgoRunRaster.lean", "SwcVerif/Model/PyRaster.lean"]
+TRANSLATE_ALGO = ["AlgoTraverse", "AlgoTravFront", "AlgoRaster", "AlgoImgIo"]   # harness/algo_specs/18_raster.py: image_stack.py::_tp3f, ToImageStack._get_samplers / _get_scene (+ leave) / transform
+DRIVER_FILES = ["SwcVerif/Model/AlgoRunRaster.lean", "SwcVerif/Model/PyRaster.lean", "SwcVerif/Model/AlgoRunImgIo.lean", "SwcVerif/Model/PyImgIo.lean"]
 LEAN_MODS = ["SwcVerif.Props.C20", "SwcVerif.Props.C20Gen"]
 THEOREMS = [
     "C20.consts_pinned", "C20.save_puts_z_first", "C20.axes_roundtrip", "C20.axes_roundtrip_3d", "C20.unknown_axis", "C20.rescale_table",
@@ -899,7 +899,151 @@ class Raster(Suite):
         return True
 
 
-SUITES = [SaveLoad(), Raster()]
+# ----------------------------------------------------------------------------- the GENERATED image I/O logic (Gen/AlgoImgIo.lean) against the real classes
+_DT = {"u8": np.uint8, "u16": np.uint16, "u32": np.uint32, "i16": np.int16, "f32": np.float32, "f64": np.float64}
+_DTN = {np.dtype(v).name: k for k, v in _DT.items()}
+
+
+def _arr_text(b):
+    """`shape|dtype|values` of an array, values as exact fractions (C order)"""
+    b = np.asarray(b)
+    vals = [str(Fraction(int(v))) if b.dtype.kind in "ui" else str(Fraction(float(v))) for v in b.flatten().tolist()]
+    return f"{gen.ints(b.shape)}|{_DTN.get(b.dtype.name, b.dtype.name)}|{','.join(vals)}"
+
+
+def _same_arr(got, want, exact):
+    """a driver array text against the real one: exact, or (a float result of a uint -> float rescaling) up to float rounding"""
+    if exact or got == want:
+        return got == want
+    g, w = got.split("|"), want.split("|")
+    if len(g) != 3 or g[:2] != w[:2]:
+        return False
+    gv, wv = g[2].split(","), w[2].split(",")
+    return len(gv) == len(wv) and all(abs(float(Fraction(x)) - float(Fraction(y))) <= 1e-6 * (1 + abs(float(Fraction(y)))) for x, y in zip(gv, wv))
+
+
+class ImgIoGen(Suite):
+    """`save_tiff`, `TiffImageStack.__init__`, `NDArrayImageStack.__init__ / __getitem__` as TRANSLATED (driver ops `gimg*`) against the real
+    functions on small random arrays: what is handed to `tifffile.imwrite` (captured in-process), what the constructor makes of an array and an axes
+    string (a stand-in `tifffile.TiffFile` hands them over), a real save / `read_imgs` round trip through a file, and element access"""
+    name = "c20.imgio-gen"
+    case_timeout = 60
+
+    def cases(self, rng, tier, widen):
+        n = 36 if tier == "thorough" or widen else 14
+        out = []
+        for i in range(n):
+            op = ["save", "load", "io", "get", "nd"][i % 5]
+            kind = rng.choice(["u8", "u16", "f32"])
+            rank = rng.choice([3, 4, 4, 4]) if op != "get" else 4
+            if rng.random() < 0.12 and op in ("save", "nd", "load"):
+                rank = rng.choice([2, 5])
+            shape = [rng.randint(1, 3) for _ in range(rank)]
+            if rank == 4 and op in ("save", "io"):
+                shape[3] = rng.choice([1, 3, 3, 2] if op == "save" else [1, 3])
+            c = {"op": op, "kind": kind, "shape": shape, "seed": rng.randrange(10**6), "to": rng.choice([None, None, "u8", "u16", "f32"]),
+                 "rd": rng.choice([None, "f32", "u8", "u16"]), "class": f"gen/{op}/{kind}"}
+            if op == "load":
+                pool = ["ZXYC", "XYZC", "CZYX", "ZYXC", "XYZ", "ZXY", "ZYX", "IXY", "QXYZ", "ZXYCC", "TZXY", "YX", ""]
+                c["axes"] = rng.choice([a for a in pool if len(a) == rank] + pool[:1]) if rng.random() < 0.8 else rng.choice(pool)
+            if op == "get":
+                c["key"] = [rng.randint(-d - 1, d) for d in shape]
+            out.append(c)
+        return out
+
+    @staticmethod
+    def array(case):
+        r = np.random.RandomState(case["seed"])
+        if case["kind"] == "f32":
+            return (r.randint(0, 257, size=case["shape"]) / 256.0).astype(np.float32)        # dyadic: every product with 255 / 65535 is exact
+        return r.randint(0, 256 if case["kind"] == "u8" else 65536, size=case["shape"]).astype(_DT[case["kind"]])
+
+    def run(self, case):
+        import tifffile
+        from swcgeom.images import io
+        a = self.array(case)
+        to = None if case["to"] is None else _DT[case["to"]]
+        rd = None if case["rd"] is None else _DT[case["rd"]]
+        try:
+            with warnings.catch_warnings(record=True) as ws:
+                warnings.simplefilter("always")
+                if case["op"] == "save":
+                    got = {}
+                    orig = tifffile.imwrite
+                    tifffile.imwrite = lambda fname, data, **kw: got.update(data=np.array(data), kw=kw)
+                    try:
+                        io.save_tiff(a.copy(), "unused.tif", dtype=to)
+                    finally:
+                        tifffile.imwrite = orig
+                    return {"arr": _arr_text(got["data"]), "axes": got["kw"]["metadata"]["axes"], "photometric": got["kw"]["photometric"]}
+                if case["op"] == "nd":
+                    return {"arr": _arr_text(io.NDArrayImageStack(a.copy(), dtype=to).get_full())}
+                if case["op"] == "load":
+                    class _S:
+                        axes = case["axes"]
+                        def asarray(self_):
+                            return a.copy()
+                    class _F:
+                        series = [_S()]
+                        def __init__(self_, *a_, **k_): pass
+                        def __enter__(self_): return self_
+                        def __exit__(self_, *a_): return False
+                    orig = tifffile.TiffFile
+                    tifffile.TiffFile = _F
+                    try:
+                        st = io.TiffImageStack("unused.tif", dtype=rd)
+                    finally:
+                        tifffile.TiffFile = orig
+                    return {"arr": _arr_text(st.get_full()), "warnings": len([w for w in ws if "reset unexcept axes" in str(w.message)])}
+                if case["op"] == "io":
+                    tmp = tempfile.mkdtemp(prefix="c20g_")
+                    try:
+                        fn = os.path.join(tmp, "s.tif")
+                        io.save_tiff(a.copy(), fn, dtype=to)
+                        st = io.read_imgs(fn, dtype=rd)
+                        return {"arr": _arr_text(st.get_full()), "warnings": len([w for w in ws if "reset unexcept axes" in str(w.message)])}
+                    finally:
+                        shutil.rmtree(tmp, ignore_errors=True)
+                v = io.NDArrayImageStack(a.copy())[tuple(case["key"])]
+                return {"val": str(Fraction(int(v))) if a.dtype.kind in "ui" else str(Fraction(float(v)))}
+        except IndexError:
+            return {"exc": "IndexError"}
+        except (AssertionError, ValueError, KeyError) as e:
+            return {"exc": type(e).__name__}
+
+    def lines(self, case, res):
+        a = self.array(case)
+        vals = [str(Fraction(int(v))) if a.dtype.kind in "ui" else str(Fraction(float(v))) for v in a.flatten().tolist()]
+        base = f"shape={gen.ints(case['shape'])} dt={case['kind']} data={','.join(vals)}"
+        to, rd = case["to"] or "none", case["rd"] or "none"
+        # a uint -> float rescaling multiplies by the float 1/UINT_MAX: compared up to float rounding; everything else is exact
+        if case["op"] == "get":
+            return [(f"gimgget {base} key={gen.ints(case['key'])}", "E" if "exc" in res else res["val"])]
+        if "exc" in res:
+            line = {"save": f"gimgsave {base} to={to}", "nd": f"gimgnd {base} to={to}", "load": f"gimgload {base} axes={case.get('axes')} to={rd}",
+                    "io": f"gimgio {base} to={to} rd={rd}"}[case["op"]]
+            return [(line, "E")]
+        if case["op"] == "save":
+            exact = not (case["kind"].startswith("u") and (case["to"] or "").startswith("f"))
+            want = res["arr"]
+            return [(f"gimgsave {base} to={to}", lambda o, want=want, exact=exact, res=res: len(o.split(";")) == 3 and _same_arr(o.split(";")[0], want, exact)
+                     and o.split(";")[1:] == [res["axes"], res["photometric"]])]
+        if case["op"] == "nd":
+            exact = not (case["kind"].startswith("u") and (case["to"] or "").startswith("f"))
+            return [(f"gimgnd {base} to={to}", lambda o, want=res["arr"], exact=exact: _same_arr(o, want, exact))]
+        stored = case["to"] or case["kind"] if case["op"] == "io" else case["kind"]
+        exact = not (stored.startswith("u") and (case["rd"] or "").startswith("f")) and not (
+            case["op"] == "io" and case["kind"].startswith("u") and (case["to"] or "").startswith("f"))
+        wtxt = ",".join(["0"] * res["warnings"])
+        line = f"gimgload {base} axes={case['axes']} to={rd}" if case["op"] == "load" else f"gimgio {base} to={to} rd={rd}"
+        return [(line, lambda o, want=res["arr"], exact=exact, wtxt=wtxt: len(o.split(";")) == 2 and o.split(";")[0] == wtxt
+                 and _same_arr(o.split(";")[1], want, exact))]
+
+    def nontrivial(self, case, res):
+        return "exc" not in res
+
+
+SUITES = [SaveLoad(), Raster(), ImgIoGen()]
 TECHNIQUE = ("Lean 4 theorems about the axis bookkeeping on index tuples (load ∘ save = identity for every (X,Y,Z,C) index, with the axes string and AXES_ORDER "
              "regenerated from the source), the rescaling decision table and its exact inverse on integers, and the voxel grid over ℚ (centres at min+(i+½)·res, "
              "all inside the bounding box, none missing) + real tifffile/nrrd/npy round trips and a raster oracle away from the surface. PARTIAL: codecs and the SDF "
